@@ -99,6 +99,8 @@ extern struct vc_snap_t vc_snap;
 
 /* ---- ghost index / carries for digit-relation contracts --------------------------------------------------- */
 extern size_t gk;
+extern dig_t g_dig0;          /* ghost: pre-state value of the observed element (bound by a requires clause) */
+extern unsigned char g_byte0;
 extern dig_t g_cy[VC_MAXN + 2];
 
 _Static_assert(RLC_BN_SIZE == VC_GEN_BN_SIZE && RLC_BN_SIZE + 2 == VC_W, "vc_val_gen.h generated for another configuration");
